@@ -710,7 +710,23 @@ impl Runner {
                     note: "owner update-config".into(),
                 })
             }
-            // migrate a pair (restart on the same code over surviving storage)
+            // migrate a pair (restart on the same code over surviving storage); sometimes the
+            // factory or the router itself is migrated by its chain-level admin
+            3 if self.rng.chance(30, 100) => {
+                let (target, code) = if self.rng.chance(60, 100) {
+                    (AddrRef::Factory, crate::world::CODE_FACTORY_V2)
+                } else {
+                    (AddrRef::Router, crate::world::CODE_ROUTER_V2)
+                };
+                self.cov.fault("F10_factory_or_router_migrated_generated");
+                Some(Proto {
+                    // the admin is the account that deployed the system, whoever owns the factory now
+                    sender: AddrRef::Actor("owner".to_string()),
+                    pre: vec![],
+                    op: Op::Migrate { target, code_id: code },
+                    note: "admin migrate".into(),
+                })
+            }
             3 => {
                 let np = self.sim.model.pairs.len();
                 if np == 0 {
